@@ -342,12 +342,16 @@ def mutate(tree, mut):
         else:
             t[0] = ""
     elif kind == "xsi_type":
-        n, _ = pick(lambda n, p: n[1] == "AttributeValue" or rng.random() < 0.1)
+        n, _ = pick(lambda n, p: n[1] == "AttributeValue" or rng.random() < 0.15)
         if n:
             n[2][:] = [a for a in n[2] if not (a[0] == XSI and a[1] in ("type", "nil"))]
             v = rng.choice(["{%s}integer" % XS, "{%s}string" % XS, "{%s}boolean" % XS, "{%s}dateTime" % XS, "{%s}nosuchtype" % XS,
                             "{%s}NameIDType" % SAML, "{%s}AssertionType" % SAML, "{urn:x-verif:foreign}T", "{?zz}string",
-                            "{%s}anyType" % XS, "{%s}base64Binary" % XS, "{%s}date" % XS, "{%s}anyURI" % XS])
+                            "{%s}anyType" % XS, "{%s}base64Binary" % XS, "{%s}date" % XS, "{%s}anyURI" % XS,
+                            "{%s}DigestValueType" % DS, "{%s}CryptoBinary" % DS, "{%s}entityIDType" % MD,
+                            "{%s}NCName" % XS, "{%s}ID" % XS, "{%s}token" % XS, "{%s}unsignedShort" % XS, "{%s}anySimpleType" % XS,
+                            "{%s}StatusResponseType" % SAMLP, "{%s}ResponseType" % SAMLP, "{%s}AttributeStatementType" % SAML,
+                            "{%s}localizedNameType" % MD, "{%s}localizedURIType" % MD, "{%s}IndexedEndpointType" % MD, "{%s}EndpointType" % MD])
             n[2].append([XSI, "type", v])
             if rng.random() < 0.5:
                 n[3] = rng.choice(BAD_VALUES)
@@ -1860,7 +1864,7 @@ def order_cases(rng, n_random):
 
 
 def doc_cases(rng, tier):
-    scale = 3 if tier == "quick" else 40
+    scale = 3 if tier == "quick" else 30
     plan = [("sp", g_sp_cfg, 8 * scale), ("idp", g_idp_cfg, 8 * scale), ("md", g_md_cfg, 24 * scale)]
     per_cfg = 14
     kinds = list(MUT_KINDS)
